@@ -7,6 +7,11 @@
      sva_generic_min   : sva_generic_min_stmt     with a minimum-odd-cycle search: a minimum cycle basis
      sva_generic_total : sva_generic_total_stmt   with a total search: the loop ends in SvaOk
 
+   and the versions sva_generic_{basis,min,total}_c whose search premises are only required for
+   CANONICAL witnesses (sorted, non-zero, inside the coordinate range; sva_inv_row shows nothing else
+   ever reaches the search) — the three statements above are their corollaries.  Also
+   select_min_support_ok / select_none_ok for the two selection rules of SvaModel.v.
+
    Reusable pieces: e2i_mem / e2i_vadd (edges_to_indices is additive on valid edge sets),
    vdot_add_r_any (vdot is additive in its right argument for ANY left argument, canonical or not),
    pairing_linear_cs, nondegenerate_of_units / nondegenerate_of_orth, the loop invariant sva_inv with
@@ -353,15 +358,27 @@ Section Index.
         specialize (Hsgle j Hjk). lia.
     Qed.
 
-    Hypothesis Hsnd : search_sound g fi search.
+    (* every support is a legal witness: canonical, inside the coordinate range, non-zero *)
+    Lemma sva_inv_row k sup Cs i : sva_inv k sup Cs -> i < N ->
+      canonical_witness fi (nth i sup []).
+    Proof.
+      intros I Hi. split; [apply (inv_sorted _ _ _ I); exact Hi|]. split.
+      - intros E. destruct (inv_surj _ _ _ I (fun l => l =? i)) as (v & _ & Hv).
+        specialize (Hv i Hi). rewrite E, vdot_nil_l, Nat.eqb_refl in Hv. discriminate.
+      - pose proof (inv_bounded _ _ _ I i Hi) as B. unfold bounded in B.
+        rewrite Forall_forall in B. exact B.
+    Qed.
+
+    Hypothesis Hsnd : search_sound_c g fi search.
 
     (* phase k found c for the support at position k; the later supports are made orthogonal to c *)
     Lemma sva_inv_update k sup Cs c w : sva_inv k sup Cs -> k < N ->
       search k (nth k sup []) = PFound c w ->
       sva_inv (S k) (update_supports sup k (edges_to_indices fi c)) (Cs ++ [c]).
     Proof.
-      intros I Hk Hsr. destruct I as [Ik Il Ic Iso Ibd Ior Isu Ifo Ilo].
-      destruct (Hsnd k _ c w Hsr) as [Hcs Hodd].
+      intros I Hk Hsr. pose proof (sva_inv_row k sup Cs k I Hk) as Hcan.
+      destruct I as [Ik Il Ic Iso Ibd Ior Isu Ifo Ilo].
+      destruct (Hsnd k _ c w Hcan Hsr) as [Hcs Hodd].
       set (cy := edges_to_indices fi c) in *.
       set (cond := fun l => (k <? l) && vdot (nth l sup []) cy).
       assert (Hnth : forall l, l < N -> nth l (update_supports sup k cy) [] =
@@ -427,17 +444,6 @@ Section Index.
       intros I Hk Hsr. eapply sva_inv_update; [apply sva_inv_swapped; assumption|exact Hk|exact Hsr].
     Qed.
 
-    (* every support is a legal witness: canonical, inside the coordinate range, non-zero *)
-    Lemma sva_inv_row k sup Cs i : sva_inv k sup Cs -> i < N ->
-      sorted (nth i sup []) /\ nth i sup [] <> [] /\ (forall j, In j (nth i sup []) -> j < N).
-    Proof.
-      intros I Hi. split; [apply (inv_sorted _ _ _ I); exact Hi|]. split.
-      - intros E. destruct (inv_surj _ _ _ I (fun l => l =? i)) as (v & _ & Hv).
-        specialize (Hv i Hi). rewrite E, vdot_nil_l, Nat.eqb_refl in Hv. discriminate.
-      - pose proof (inv_bounded _ _ _ I i Hi) as B. unfold bounded in B.
-        rewrite Forall_forall in B. exact B.
-    Qed.
-
     Lemma sva_phases_unfold k ks sup acc total :
       sva_phases W wadd select search fi (k :: ks) sup acc total =
       match search k (nth k (swapped k sup) []) with
@@ -494,9 +500,10 @@ Section Index.
       - rewrite Forall_forall. intros C HC. apply (In_nth _ _ []) in HC as (j & Hj & <-).
         assert (Hj' : j < N) by (rewrite <- Ic; exact Hj).
         destruct (inv_found _ _ _ I j Hj') as (w & Hsr).
-        apply (Hsnd _ _ _ _ Hsr).
+        apply (Hsnd _ _ _ _ (sva_inv_row _ _ _ j I Hj') Hsr).
       - split; [congruence|]. rewrite Ic. split.
-        + intros j Hj. destruct (inv_found _ _ _ I j Hj) as (w & Hsr). apply (Hsnd _ _ _ _ Hsr).
+        + intros j Hj. destruct (inv_found _ _ _ I j Hj) as (w & Hsr).
+          apply (Hsnd _ _ _ _ (sva_inv_row _ _ _ j I Hj) Hsr).
         + intros i j Hij Hj. apply (inv_low _ _ _ I); lia.
       - assert (Hlt : forall i, i < length sup -> i < N) by (intros i Hi; rewrite <- Il; exact Hi).
         assert (Hgt : forall i, i < N -> i < length sup) by (intros i Hi; rewrite Il; exact Hi).
@@ -510,25 +517,68 @@ End Index.
 
 (* ---- the accumulated weight ----------------------------------------------------------------- *)
 
-Lemma sva_phases_weight wts select (search : nat -> vec -> phase_result Z) fi :
-  (forall k S c w, search k S = PFound c w -> w = weight wts c) ->
-  forall ks sup acc total cycles tot supf,
-    sva_phases Z Z.add select search fi ks sup acc total = SvaOk cycles tot supf ->
+Lemma sva_phases_weight g wts select (search : nat -> vec -> phase_result Z) fi :
+  select_ok (fi_csd fi) select -> search_sound_c g fi search ->
+  (forall k S c w, canonical_witness fi S -> search k S = PFound c w -> w = weight wts c) ->
+  forall n k sup acc total cycles tot supf,
+    k + n = fi_csd fi -> sva_inv fi Z search k sup (rev acc) ->
+    sva_phases Z Z.add select search fi (seq k n) sup acc total = SvaOk cycles tot supf ->
     total = total_weight wts (rev acc) -> tot = total_weight wts cycles.
 Proof.
-  intros Hw. induction ks as [|k ks IH]; intros sup acc total cycles tot supf Hrun Htot.
-  - cbn [sva_phases] in Hrun. injection Hrun as <- <- _. exact Htot.
-  - cbn [sva_phases] in Hrun.
-    match type of Hrun with match ?s with _ => _ end = _ => destruct s as [c w| |] eqn:Hsr end;
-      try discriminate.
-    apply IH in Hrun; [exact Hrun|]. cbn [rev]. rewrite total_weight_app.
-    rewrite (Hw _ _ _ _ Hsr), Htot. unfold total_weight at 3. cbn [map fold_right]. lia.
+  intros Hsel Hsnd Hw. induction n as [|n IH]; intros k sup acc total cycles tot supf Hkn I Hrun Htot.
+  - cbn [seq sva_phases] in Hrun. injection Hrun as <- <- _. exact Htot.
+  - cbn [seq] in Hrun. rewrite sva_phases_unfold in Hrun.
+    assert (Hk : k < fi_csd fi) by lia.
+    pose proof (sva_inv_swapped fi Z select search Hsel k sup (rev acc) I Hk) as I1.
+    pose proof (sva_inv_row fi Z search k _ _ k I1 Hk) as Hcan.
+    destruct (search k (nth k (swapped select k sup) [])) as [c w| |] eqn:Hsr; try discriminate.
+    apply (IH (S k)) in Hrun; [exact Hrun|lia| |].
+    + cbn [rev]. apply (sva_inv_step g fi Z select search Hsnd Hsel k sup (rev acc) c w); assumption.
+    + cbn [rev]. rewrite total_weight_app.
+      rewrite (Hw _ _ _ _ Hcan Hsr), Htot. unfold total_weight at 3. cbn [map fold_right]. lia.
 Qed.
 
-(* ---- the three statements of SvaSpec.v ------------------------------------------------------- *)
+(* ---- the selection rules of the entry points ------------------------------------------------- *)
+
+Lemma min_support_range sup lo hi : forall rs cur,
+  lo <= cur < hi -> (forall r, In r rs -> lo <= r < hi) -> lo <= min_support sup cur rs < hi.
+Proof.
+  induction rs as [|r rs IH]; intros cur Hc Hrs; [exact Hc|].
+  cbn [min_support].
+  assert (Hr : lo <= r < hi) by (apply Hrs; left; reflexivity).
+  assert (Hc' : lo <= (if length (nth r sup []) <? length (nth cur sup []) then r else cur) < hi)
+    by (destruct (length (nth r sup []) <? length (nth cur sup [])); assumption).
+  match goal with |- context [if ?b then _ else min_support _ _ _] => destruct b end; [exact Hc'|].
+  apply IH; [exact Hc'|]. intros r' Hr'. apply Hrs. right. exact Hr'.
+Qed.
+
+Lemma select_min_support_ok : forall csd, select_ok csd (select_min_support csd).
+Proof.
+  intros csd k sup Hk _. unfold select_min_support. apply min_support_range; [lia|].
+  intros r Hr. apply in_seq in Hr. lia.
+Qed.
+
+Lemma select_none_ok : forall csd, select_ok csd select_none.
+Proof. intros csd k sup Hk _. unfold select_none. lia. Qed.
+
+(* ---- the statements of SvaSpec.v -------------------------------------------------------------- *)
+
+Lemma search_sound_weaken g fi W (search : nat -> vec -> phase_result W) :
+  search_sound g fi search -> search_sound_c g fi search.
+Proof. intros H k S c w _ E. exact (H k S c w E). Qed.
+
+Lemma search_min_weaken g wts fi search : search_min g wts fi search -> search_min_c g wts fi search.
+Proof. intros H k S c w _ E. exact (H k S c w E). Qed.
+
+Lemma search_min_c_sound g wts fi search : simple_graph g ->
+  search_min_c g wts fi search -> search_sound_c g fi search.
+Proof.
+  intros Hs Hmin k S c w HS E. destruct (Hmin k S c w HS E) as [(Hsc & Hodd & _) _].
+  split; [apply simple_cycle_in_cycle_space; assumption|exact Hodd].
+Qed.
 
 Lemma sva_run_inv g fi W w0 wadd select search cycles total sup :
-  select_ok (fi_csd fi) select -> search_sound g fi search ->
+  select_ok (fi_csd fi) select -> search_sound_c g fi search ->
   sva_run W w0 wadd select search fi = SvaOk cycles total sup ->
   sva_inv fi W search (fi_csd fi) sup cycles.
 Proof.
@@ -538,7 +588,7 @@ Proof.
   cbn [rev]. apply sva_inv_init.
 Qed.
 
-Theorem sva_generic_basis : sva_generic_basis_stmt.
+Theorem sva_generic_basis_c : sva_generic_basis_c_stmt.
 Proof.
   intros g roots fi W w0 wadd select search cycles total sup Hs Hr Hci Hsel Hsnd Hrun.
   pose proof (sva_run_inv g fi W w0 wadd select search cycles total sup Hsel Hsnd Hrun) as I.
@@ -548,17 +598,10 @@ Proof.
   repeat (split; [assumption|]). exact Hsp.
 Qed.
 
-Lemma search_min_sound g wts fi search : simple_graph g ->
-  search_min g wts fi search -> search_sound g fi search.
-Proof.
-  intros Hs Hmin k S c w E. destruct (Hmin k S c w E) as [(Hsc & Hodd & _) _].
-  split; [apply simple_cycle_in_cycle_space; assumption|exact Hodd].
-Qed.
-
-Theorem sva_generic_min : sva_generic_min_stmt.
+Theorem sva_generic_min_c : sva_generic_min_c_stmt.
 Proof.
   intros g wts roots fi select search cycles total sup Hs Hpw Hr Hci Hsel Hmin Hrun.
-  pose proof (search_min_sound g wts fi search Hs Hmin) as Hsnd.
+  pose proof (search_min_c_sound g wts fi search Hs Hmin) as Hsnd.
   pose proof (sva_run_inv g fi Z 0%Z Z.add select search cycles total sup Hsel Hsnd Hrun) as I.
   destruct (sva_inv_final g roots fi Hs Hr Hci Z search Hsnd sup cycles I) as (Hl & Hd & HV & HT & Hnd).
   destruct HT as (HTl & HTd & HTlow).
@@ -567,13 +610,15 @@ Proof.
     + apply (pairing_linear_cs g roots fi Hs Hr Hci).
     + intros k Hk. assert (Hk' : k < fi_csd fi) by (rewrite <- Hl; exact Hk).
       destruct (inv_found _ _ _ _ _ _ I k Hk') as (w & Hsr).
-      apply (Hmin _ _ _ _ Hsr).
+      apply (Hmin _ _ _ _ (sva_inv_row _ _ _ _ _ _ k I Hk') Hsr).
   - unfold sva_run in Hrun.
-    eapply (sva_phases_weight wts select search fi); [|exact Hrun|reflexivity].
-    intros k S c w Hsr. apply (Hmin _ _ _ _ Hsr).
+    assert (Hw : forall k S c w, canonical_witness fi S -> search k S = PFound c w -> w = weight wts c)
+      by (intros k S c w HS Hsr; apply (Hmin _ _ _ _ HS Hsr)).
+    exact (sva_phases_weight g wts select search fi Hsel Hsnd Hw (fi_csd fi) 0 _ [] 0%Z cycles total sup
+             eq_refl (sva_inv_init fi Z search) Hrun eq_refl).
 Qed.
 
-Theorem sva_generic_total : sva_generic_total_stmt.
+Theorem sva_generic_total_c : sva_generic_total_c_stmt.
 Proof.
   intros g roots fi W w0 wadd select search Hs Hr Hci Hsel Hsnd Htot. unfold sva_run.
   apply (sva_phases_total g fi W wadd select search Hsnd Hsel Htot (fi_csd fi) 0);
@@ -581,6 +626,28 @@ Proof.
   cbn [rev]. apply sva_inv_init.
 Qed.
 
+(* the statements with premises over ALL witnesses are corollaries *)
+Theorem sva_generic_basis : sva_generic_basis_stmt.
+Proof.
+  intros g roots fi W w0 wadd select search cycles total sup Hs Hr Hci Hsel Hsnd Hrun.
+  apply (sva_generic_basis_c g roots fi W w0 wadd select search cycles total sup); auto using search_sound_weaken.
+Qed.
+
+Theorem sva_generic_min : sva_generic_min_stmt.
+Proof.
+  intros g wts roots fi select search cycles total sup Hs Hpw Hr Hci Hsel Hmin Hrun.
+  apply (sva_generic_min_c g wts roots fi select search cycles total sup); auto using search_min_weaken.
+Qed.
+
+Theorem sva_generic_total : sva_generic_total_stmt.
+Proof.
+  intros g roots fi W w0 wadd select search Hs Hr Hci Hsel Hsnd Htot.
+  apply (sva_generic_total_c g roots fi W w0 wadd select search); auto using search_sound_weaken.
+Qed.
+
+Print Assumptions sva_generic_basis_c.
+Print Assumptions sva_generic_min_c.
+Print Assumptions sva_generic_total_c.
 Print Assumptions sva_generic_basis.
 Print Assumptions sva_generic_min.
 Print Assumptions sva_generic_total.
